@@ -12,13 +12,23 @@ entry point that goes through it), instantiated on `codecTable` = the registry o
   `autoReader` for the count pass and one more per shard; …). That "every entry point passes its data
   through the compression layer" is therefore a THEOREM about those definitions (`every_writer_wraps`,
   `every_reader_decodes`), and it is FALSE for the definitions of the pinned commit (`legacy_*`).
-* A reader source is a `Src` = bytes + read schedule (how many bytes each `read` call returns);
-  detection is proved independent of the schedule (`detection_independent_of_read_schedule`), which was
-  false before the `fix:` commit (`legacy_short_first_read_undetected`).
-* The codecs themselves are abstract (`CodecImpl`); what is assumed about them is the structure `Lawful`
-  (a hypothesis of the theorems, never an axiom): decompress ∘ compress = id and "the compressed stream
-  starts with the format's true signature" (`specSignatures`). `toy_lawful` shows the hypotheses are
-  satisfiable; the harness validates them for the real libraries on every generated payload.
+* A reader source is a `Src` = the stream (bytes interleaved with the I/O faults the source raises:
+  `Interrupted`, any other error) + a read schedule (how many bytes each successful `read` returns);
+  detection is proved independent of the schedule and of `Interrupted` faults
+  (`detection_independent_of_read_schedule`), which was false before the first `fix:` commit
+  (`legacy_short_first_read_undetected`); for EVERY source, any faults included, the read either fails or
+  returns what a `File` with the same bytes returns (`source_faults_never_silent`), which was false before the
+  second `fix:` commit (`legacy_source_error_swallowed`).
+* The registry is STATE: whatever sequence of `get_registry` / `register_codec` calls a process made, a
+  detection sees `codecTable ++ registered` (`registry_builtins_first`); the `registered_*` theorems hold
+  for EVERY list of registered codecs.
+* The codecs themselves are abstract (`CodecImpl`); what is assumed about them is the structure
+  `Lawful E D` (encoders `E`, decoders `D`; a hypothesis of the theorems, never an axiom):
+  `D.decompress ∘ E.compress = id` and "the compressed stream starts with the format's true signature"
+  (`specSignatures`). The registry's codecs are one `CodecImpl` `K` (`Lawful K K`), the cloud writer's own
+  encoder instances another one `Kc` (`Lawful Kc K`: what they emit, the registry's decoders read).
+  `toy_lawful` shows the hypotheses are satisfiable; the harness validates them for the real libraries on
+  every generated payload.
 * The format layer (serde_json / csv / lines, shard arithmetic) is a parameter; the theorems reduce every
   compressed round trip to what the SAME entry points do on a plain stream (`Reader.plain`), which is
   the subject of C09 (`reader_plain_eq_readAll`).
@@ -28,13 +38,20 @@ NOT covered: the Parquet entry points (`write_parquet_vec`, `PCollection::write_
 name like `x.parquet.gz` is written as a plain Parquet file; the property's entry-point list
 {`write_*_vec`, `write_*_par`, PCollection writers, streaming readers, cloud readers/writers} is read
 here as the JSONL / CSV / cloud-JSONL ones.
+Also outside the theorems: a path is a `List Char` — for a file name that is not valid UTF-8 the model is
+given its `to_string_lossy()` form (std's lossy decoding is trusted, the harness applies it: `ODETECT` / `ORT`);
+a source `error` fault BEHIND the bytes `auto_detect_reader` itself reads is modelled as a failed read (what
+a decoder does with it is the decoder's business); a REGISTERED codec's extension on a cloud key (the cloud
+writer never consults the registry: `cloud_writer_ignores_registered_codecs`; the property speaks of the
+built-in codecs).
 -/
 namespace IB.Compression
 
-/-- what is assumed of the third-party codecs -/
-structure Lawful (K : CodecImpl) : Prop where
-  roundtrip : ∀ n s, (n, s) ∈ specSignatures → ∀ x, K.decompress n (K.compress n x) = some x
-  signed : ∀ n s, (n, s) ∈ specSignatures → ∀ x, s <+: K.compress n x
+/-- what is assumed of the third-party codecs: encoders `E` (the registry's `wrap_writer_dyn`, or the cloud
+    writer's own encoder instances), decoders `D` (the registry's `wrap_reader_dyn`) -/
+structure Lawful (E D : CodecImpl) : Prop where
+  roundtrip : ∀ n s, (n, s) ∈ specSignatures → ∀ x, D.decompress n (E.compress n x) = some x
+  signed : ∀ n s, (n, s) ∈ specSignatures → ∀ x, s <+: E.compress n x
 
 /-! ## table obligations — decided on the table dumped from the running registry -/
 
@@ -75,12 +92,14 @@ theorem table_case_variants_lower : caseVariantsOK codecTable = true := by decid
 /-! ## every entry point goes through the compression layer -/
 
 /-- **every writer wraps**: each JSONL / CSV writer entry point — sequential, parallel (any shard
-    count), PCollection, cloud object — stores exactly `autoWriter path (the plain serialisation)`: the
-    bytes the sequential writer of the format emits, pushed through `auto_detect_writer` ONCE, as one
-    stream. A theorem about the per-entry-point definitions (shard slicing, part files, buffers, the
-    cloud writer's own extension chain), not a definition. -/
-theorem every_writer_wraps {ρ : Type} (K : CodecImpl) (w : AnyWriter ρ) (path : List Char) (rs : List ρ) :
-    w.run K codecTable path rs = some (autoWriter K codecTable path (w.plainOf rs)) := by
+    count, `None` included), PCollection, the `write_csv` alias, cloud object — stores exactly
+    `autoWriter path (the plain serialisation)`: the bytes the sequential writer of the format emits, pushed
+    through ONE encoder of the codec `auto_detect_writer` would choose, as one stream (the cloud writer through
+    its own encoder instances `Kc`, every other one through the registry's `K`). A theorem about the
+    per-entry-point definitions (shard slicing, part files, buffers, the cloud writer's own extension chain),
+    not a definition. -/
+theorem every_writer_wraps {ρ : Type} (K Kc : CodecImpl) (w : AnyWriter ρ) (path : List Char) (rs : List ρ) :
+    w.run K Kc codecTable path rs = some (autoWriter (w.enc K Kc) codecTable path (w.plainOf rs)) := by
   cases w with
   | jsonl w ser =>
     cases w with
@@ -89,14 +108,48 @@ theorem every_writer_wraps {ρ : Type} (K : CodecImpl) (w : AnyWriter ρ) (path 
     | par sh a => exact writeJsonlPar_eq K codecTable ser path rs sh a
     | pcPar sh a => exact writeJsonlPar_eq K codecTable ser path rs sh a
     | cloud =>
-      simp only [AnyWriter.run, JWriter.run, writeCloudJsonl, AnyWriter.plainOf,
-        cloudWriter_eq_autoWriter K table_cloud_chain_agrees]
+      simp only [AnyWriter.run, JWriter.run, writeCloudJsonl, AnyWriter.plainOf, AnyWriter.enc,
+        cloudWriter_eq_autoWriter Kc table_cloud_chain_agrees]
   | csv w hdr header ser =>
     cases w with
     | vec => rfl
+    | alias => rfl
     | pc => rfl
     | par sh a => exact writeCsvPar_eq K codecTable hdr header ser path rs sh a
-    | pcPar n =>
+    | pcPar sh a =>
+      simp only [AnyWriter.run, CWriter.run, AnyWriter.plainOf, pcWriteCsvPar_eq]
+      rfl
+
+/-- is this the cloud writer (whose extension chain is hard-coded and never consults the registry)? -/
+def AnyWriter.isCloud {ρ : Type} : AnyWriter ρ → Bool
+  | .jsonl .cloud _ => true
+  | _ => false
+
+/-- the same for ANY registry content `tbl` (user codecs registered): every LOCAL writer entry point stores
+    `autoWriter tbl path plain`; the cloud writer decides by its own chain = the BUILT-IN table, whatever
+    was registered. -/
+theorem every_writer_wraps_any_registry {ρ : Type} (K Kc : CodecImpl) (tbl : List CodecEntry)
+    (w : AnyWriter ρ) (path : List Char) (rs : List ρ) :
+    w.run K Kc tbl path rs =
+      some (if w.isCloud then autoWriter Kc codecTable path (w.plainOf rs)
+            else autoWriter K tbl path (w.plainOf rs)) := by
+  cases w with
+  | jsonl w ser =>
+    cases w with
+    | vec => rfl
+    | pc => rfl
+    | par sh a => exact writeJsonlPar_eq K tbl ser path rs sh a
+    | pcPar sh a => exact writeJsonlPar_eq K tbl ser path rs sh a
+    | cloud =>
+      simp only [AnyWriter.run, JWriter.run, writeCloudJsonl, AnyWriter.plainOf, AnyWriter.isCloud,
+        cloudWriter_eq_autoWriter Kc table_cloud_chain_agrees, if_true]
+  | csv w hdr header ser =>
+    cases w with
+    | vec => rfl
+    | alias => rfl
+    | pc => rfl
+    | par sh a => exact writeCsvPar_eq K tbl hdr header ser path rs sh a
+    | pcPar sh a =>
       simp only [AnyWriter.run, CWriter.run, AnyWriter.plainOf, pcWriteCsvPar_eq]
       rfl
 
@@ -114,17 +167,54 @@ theorem reader_plain_is_read_all {Line ρ : Type} (F : ReadFmt Line ρ) (r : Rea
   reader_plain_eq_readAll F r plain
 
 /-- **detection does not depend on how the source chunks its reads**: for EVERY read schedule (first
-    read of 1 byte, byte-by-byte, …) `auto_detect_reader` decides and returns exactly what it does on a
-    `File` / `Cursor` with the same content — the decision is a function of the path and of the first
-    `headLen` (= 6) bytes of the stream. -/
-theorem detection_independent_of_read_schedule (K : CodecImpl) (path : List Char) (bytes : Bytes)
-    (sched : List Nat) :
-    readerCodecSrc codecTable path ⟨bytes, sched⟩ = readerCodec codecTable path bytes ∧
-      autoReaderSrc K codecTable path ⟨bytes, sched⟩ = autoReader K codecTable path bytes := by
+    read of 1 byte, byte-by-byte, …) and EVERY placement of `Interrupted` faults, `auto_detect_reader`
+    succeeds, decides and returns exactly what it does on a `File` / `Cursor` with the same content — the
+    decision is a function of the path and of the first `headLen` (= 6) bytes of the stream. -/
+theorem detection_independent_of_read_schedule (K : CodecImpl) (path : List Char) (s : Src)
+    (hs : s.ErrorFree) :
+    readerCodecSrc codecTable path s = some (readerCodec codecTable path s.data) ∧
+      autoReaderSrc K codecTable path s = autoReader K codecTable path s.data := by
+  have hH := headLenOK_pos table_head_len
   constructor
-  · rw [readerCodecSrc_eq_spec table_head_len, readerCodec, readerCodecSrc_eq_spec table_head_len]
+  · rw [readerCodecSrc_eq_spec hH path s hs, readerCodec_eq_spec hH]
+  · rw [autoReaderSrc_eq_spec K hH path s hs, autoReader_eq_spec K hH]
+
+/-- the same for the plain chunked sources of the harness's `DETECTS` requests -/
+theorem detection_independent_of_chunking (K : CodecImpl) (path : List Char) (bytes : Bytes)
+    (sched : List Nat) :
+    readerCodecSrc codecTable path (Src.chunked bytes sched) = some (readerCodec codecTable path bytes) ∧
+      autoReaderSrc K codecTable path (Src.chunked bytes sched) = autoReader K codecTable path bytes := by
+  have := detection_independent_of_read_schedule K path (Src.chunked bytes sched) (Src.chunked_errorFree _ _)
+  rwa [Src.chunked_data] at this
+
+/-- **a source fault is never silent**: for EVERY source — any read schedule, `Interrupted` and other
+    errors anywhere in the stream — `auto_detect_reader` + reading to the end either reports an error or
+    returns exactly what it returns on a `File` with the same bytes. In particular a genuine stream under a
+    neutral name is never handed on undecoded because the source failed once while the signature was
+    collected (false before the second `fix:` commit, `legacy_source_error_swallowed`). -/
+theorem source_faults_never_silent (K : CodecImpl) (path : List Char) (s : Src) :
+    autoReaderSrc K codecTable path s = none ∨
+      autoReaderSrc K codecTable path s = autoReader K codecTable path s.data := by
+  have hH := headLenOK_pos table_head_len
+  rw [autoReader_eq_spec K hH]
+  exact autoReaderSrc_none_or_spec K hH path s
+
+/-- … and an `error` fault in front of the 6th byte (with data behind it) under a neutral name IS reported:
+    `auto_detect_reader` itself returns `Err`. -/
+theorem source_error_in_head_is_reported (K : CodecImpl) (path : List Char)
+    (h : detectExt codecTable path = none) (pre post : List Item) (sched : List Nat)
+    (hpre : errorFree pre = true) (hlen : (bytesOf pre).length < headLen codecTable)
+    (hpost : bytesOf post ≠ []) :
+    readerCodecSrc codecTable path ⟨pre ++ .fault .error :: post, sched⟩ = none ∧
+      autoReaderSrc K codecTable path ⟨pre ++ .fault .error :: post, sched⟩ = none := by
+  have hsc := headScan_error pre post (headLen codecTable) hpre hlen hpost
+  have hp : peek codecTable ⟨pre ++ .fault .error :: post, sched⟩ = none := by
+    unfold peek
+    rw [readHead_none_of_scan (Nat.lt_succ_self _) hsc]
     rfl
-  · rw [autoReaderSrc_eq_spec K table_head_len, autoReader_eq_spec K table_head_len]
+  constructor
+  · simp only [readerCodecSrc, h, hp, Option.map_none]
+  · simp only [autoReaderSrc, h, hp]
 
 /-! ## the core: what is stored under a name reads back -/
 
@@ -142,12 +232,14 @@ theorem detectMagic_none_of_no_signature (x : Bytes) (k : Nat)
   rw [hm] at hs; cases hs
   exact hx _ _ hmem hp
 
-/-- **transparent**: what `auto_detect_writer` stored under a sound name, `auto_detect_reader` returns
-    unchanged — from any source, whatever its read schedule. -/
-theorem transparent (K : CodecImpl) (hK : Lawful K) (path : List Char) (plain : Bytes)
-    (hok : NameOK path plain) (sched : List Nat) :
-    autoReaderSrc K codecTable path ⟨autoWriter K codecTable path plain, sched⟩ = some plain := by
-  rw [autoReaderSrc_eq_spec K table_head_len]
+/-- **transparent**: what `auto_detect_writer` (encoders `E`) stored under a sound name,
+    `auto_detect_reader` (decoders `D`) returns unchanged — from any source that delivers those bytes
+    without an `error` fault, whatever its read schedule and `Interrupted` faults. -/
+theorem transparent (E D : CodecImpl) (hK : Lawful E D) (path : List Char) (plain : Bytes)
+    (hok : NameOK path plain) (s : Src) (hs : s.ErrorFree)
+    (hd : s.data = autoWriter E codecTable path plain) :
+    autoReaderSrc D codecTable path s = some plain := by
+  rw [autoReaderSrc_eq_spec D (headLenOK_pos table_head_len) path s hs, hd]
   unfold autoReaderSpec readerCodecSpec autoWriter
   rcases hok with ⟨c, h⟩ | ⟨h, hx⟩
   · obtain ⟨s, _, hs⟩ := spec_of_mem_table table_magic_is_format_signature (detectExt_mem h)
@@ -155,14 +247,25 @@ theorem transparent (K : CodecImpl) (hK : Lawful K) (path : List Char) (plain : 
     exact hK.roundtrip _ _ hs plain
   · simp only [h, detectMagic_none_of_no_signature plain _ hx]
 
+theorem transparent_file (E D : CodecImpl) (hK : Lawful E D) (path : List Char) (plain : Bytes)
+    (hok : NameOK path plain) :
+    autoReader D codecTable path (autoWriter E codecTable path plain) = some plain :=
+  transparent E D hK path plain hok _ (Src.full_errorFree _) (Src.full_data _)
+
+theorem enc_lawful {ρ : Type} (K Kc : CodecImpl) (hK : Lawful K K) (hC : Lawful Kc K) (w : AnyWriter ρ) :
+    Lawful (w.enc K Kc) K := by
+  cases w with
+  | jsonl w ser => cases w <;> first | exact hK | exact hC
+  | csv w hdr header ser => exact hK
+
 /-- the same through any writer and any reader entry point: the compression layer vanishes — the
     result is what the reader's format layer computes from the writer's plain serialisation. -/
-theorem entry_points_transparent {Line ρ : Type} (K : CodecImpl) (hK : Lawful K) (F : ReadFmt Line ρ)
-    (w : AnyWriter ρ) (r : Reader) (path : List Char) (rs : List ρ) (hok : NameOK path (w.plainOf rs)) :
-    (w.run K codecTable path rs).bind (r.run K codecTable F path) = r.plain F (w.plainOf rs) := by
+theorem entry_points_transparent {Line ρ : Type} (K Kc : CodecImpl) (hK : Lawful K K) (hC : Lawful Kc K)
+    (F : ReadFmt Line ρ) (w : AnyWriter ρ) (r : Reader) (path : List Char) (rs : List ρ)
+    (hok : NameOK path (w.plainOf rs)) :
+    (w.run K Kc codecTable path rs).bind (r.run K codecTable F path) = r.plain F (w.plainOf rs) := by
   rw [every_writer_wraps, Option.bind_some, every_reader_decodes]
-  have := transparent K hK path (w.plainOf rs) hok []
-  rw [show autoReader K codecTable path (autoWriter K codecTable path (w.plainOf rs)) = some (w.plainOf rs) from this]
+  rw [transparent_file _ K (enc_lawful K Kc hK hC w) path (w.plainOf rs) hok]
   rfl
 
 /-! ## data under a codec extension -/
@@ -170,12 +273,13 @@ theorem entry_points_transparent {Line ρ : Type} (K : CodecImpl) (hK : Lawful K
 /-- **stored compressed**: through every writer entry point, data written to a path that carries a
     codec's extension is stored as ONE stream of that codec, which starts with the format's true
     signature. -/
-theorem ext_stored_compressed {ρ : Type} (K : CodecImpl) (hK : Lawful K) (w : AnyWriter ρ)
-    (path : List Char) (c : CodecEntry) (h : detectExt codecTable path = some c) (rs : List ρ) :
-    w.run K codecTable path rs = some (K.compress c.name (w.plainOf rs)) ∧
-      ∃ s, (c.name, s) ∈ specSignatures ∧ s <+: K.compress c.name (w.plainOf rs) := by
+theorem ext_stored_compressed {ρ : Type} (K Kc : CodecImpl) (hK : Lawful K K) (hC : Lawful Kc K)
+    (w : AnyWriter ρ) (path : List Char) (c : CodecEntry) (h : detectExt codecTable path = some c)
+    (rs : List ρ) :
+    w.run K Kc codecTable path rs = some ((w.enc K Kc).compress c.name (w.plainOf rs)) ∧
+      ∃ s, (c.name, s) ∈ specSignatures ∧ s <+: (w.enc K Kc).compress c.name (w.plainOf rs) := by
   obtain ⟨s, _, hs⟩ := spec_of_mem_table table_magic_is_format_signature (detectExt_mem h)
-  refine ⟨?_, s, hs, hK.signed _ _ hs _⟩
+  refine ⟨?_, s, hs, (enc_lawful K Kc hK hC w).signed _ _ hs _⟩
   rw [every_writer_wraps]
   simp only [autoWriter, h]
 
@@ -188,27 +292,28 @@ theorem ext_stored_compressed_raw (K : CodecImpl) (path : List Char) (c : CodecE
 /-- **ext_roundtrip**: for EVERY writer entry point, EVERY reader entry point and EVERY path carrying a
     codec extension, what is written reads back exactly as the same entry points would read the plain
     serialisation … -/
-theorem ext_roundtrip {Line ρ : Type} (K : CodecImpl) (hK : Lawful K) (F : ReadFmt Line ρ)
-    (w : AnyWriter ρ) (r : Reader) (path : List Char) (c : CodecEntry)
+theorem ext_roundtrip {Line ρ : Type} (K Kc : CodecImpl) (hK : Lawful K K) (hC : Lawful Kc K)
+    (F : ReadFmt Line ρ) (w : AnyWriter ρ) (r : Reader) (path : List Char) (c : CodecEntry)
     (h : detectExt codecTable path = some c) (rs : List ρ) :
-    (w.run K codecTable path rs).bind (r.run K codecTable F path) = r.plain F (w.plainOf rs) :=
-  entry_points_transparent K hK F w r path rs (Or.inl ⟨c, h⟩)
+    (w.run K Kc codecTable path rs).bind (r.run K codecTable F path) = r.plain F (w.plainOf rs) :=
+  entry_points_transparent K Kc hK hC F w r path rs (Or.inl ⟨c, h⟩)
 
 /-- … hence, with any serialiser / parser pair of the format layer that round-trips on plain bytes
     (property C09: `roundtrip_modulo_serialiser`, `csv_roundtrip`), records written under a codec
     extension read back identical. -/
-theorem ext_roundtrip_records {Line ρ : Type} (K : CodecImpl) (hK : Lawful K) (F : ReadFmt Line ρ)
-    (w : AnyWriter ρ) (r : Reader) (path : List Char) (c : CodecEntry)
+theorem ext_roundtrip_records {Line ρ : Type} (K Kc : CodecImpl) (hK : Lawful K K) (hC : Lawful Kc K)
+    (F : ReadFmt Line ρ) (w : AnyWriter ρ) (r : Reader) (path : List Char) (c : CodecEntry)
     (h : detectExt codecTable path = some c) (rs : List ρ)
     (hfmt : (F.lines (w.plainOf rs)).bind (IB.Io.readAll F.blank F.de) = some rs) :
-    (w.run K codecTable path rs).bind (r.run K codecTable F path) = some rs := by
-  rw [ext_roundtrip K hK F w r path c h, reader_plain_is_read_all, hfmt]
+    (w.run K Kc codecTable path rs).bind (r.run K codecTable F path) = some rs := by
+  rw [ext_roundtrip K Kc hK hC F w r path c h, reader_plain_is_read_all, hfmt]
 
-/-- raw bytes through `auto_detect_writer` / `auto_detect_reader`, from any source -/
-theorem ext_roundtrip_raw (K : CodecImpl) (hK : Lawful K) (path : List Char) (c : CodecEntry)
-    (h : detectExt codecTable path = some c) (x : Bytes) (sched : List Nat) :
-    autoReaderSrc K codecTable path ⟨autoWriter K codecTable path x, sched⟩ = some x :=
-  transparent K hK path x (Or.inl ⟨c, h⟩) sched
+/-- raw bytes through `auto_detect_writer` / `auto_detect_reader`, from any source without `error` faults -/
+theorem ext_roundtrip_raw (K : CodecImpl) (hK : Lawful K K) (path : List Char) (c : CodecEntry)
+    (h : detectExt codecTable path = some c) (x : Bytes) (s : Src) (hs : s.ErrorFree)
+    (hd : s.data = autoWriter K codecTable path x) :
+    autoReaderSrc K codecTable path s = some x :=
+  transparent K K hK path x (Or.inl ⟨c, h⟩) s hs hd
 
 /-- **case-insensitive**: a path that ends with ANY upper/lower-case spelling of a codec's extension is
     detected as that codec — by the writer and by the reader, whatever precedes the extension. -/
@@ -239,36 +344,41 @@ theorem detectExt_lower_congr (tbl : List CodecEntry) (p q : List Char) (h : low
 
 /-- **neutral, writer side**: no codec extension ⇒ every writer entry point stores the plain
     serialisation verbatim -/
-theorem neutral_stored_verbatim {ρ : Type} (K : CodecImpl) (w : AnyWriter ρ) (path : List Char)
+theorem neutral_stored_verbatim {ρ : Type} (K Kc : CodecImpl) (w : AnyWriter ρ) (path : List Char)
     (h : detectExt codecTable path = none) (rs : List ρ) :
-    w.run K codecTable path rs = some (w.plainOf rs) := by
+    w.run K Kc codecTable path rs = some (w.plainOf rs) := by
   rw [every_writer_wraps]
   simp only [autoWriter, h]
 
 /-- **neutral_verbatim**: no codec extension ∧ the content does not start with a true format signature
-    ⇒ `auto_detect_reader` returns the content verbatim — for ANY codec implementation and ANY read
-    schedule of the source … -/
+    ⇒ `auto_detect_reader` returns the content verbatim — for ANY codec implementation and ANY source
+    without `error` faults (any read schedule, any `Interrupted` faults) … -/
 theorem neutral_verbatim_raw (K : CodecImpl) (path : List Char) (h : detectExt codecTable path = none)
-    (x : Bytes) (hx : ∀ n s, (n, s) ∈ specSignatures → ¬ s <+: x) (sched : List Nat) :
-    autoReaderSrc K codecTable path ⟨x, sched⟩ = some x := by
-  rw [autoReaderSrc_eq_spec K table_head_len]
-  simp only [autoReaderSpec, readerCodecSpec, h, detectMagic_none_of_no_signature x _ hx]
+    (s : Src) (hs : s.ErrorFree) (hx : ∀ n sg, (n, sg) ∈ specSignatures → ¬ sg <+: s.data) :
+    autoReaderSrc K codecTable path s = some s.data := by
+  rw [autoReaderSrc_eq_spec K (headLenOK_pos table_head_len) path s hs]
+  simp only [autoReaderSpec, readerCodecSpec, h, detectMagic_none_of_no_signature s.data _ hx]
+
+theorem neutral_verbatim_file (K : CodecImpl) (path : List Char) (h : detectExt codecTable path = none)
+    (x : Bytes) (hx : ∀ n s, (n, s) ∈ specSignatures → ¬ s <+: x) :
+    autoReader K codecTable path x = some x := by
+  have := neutral_verbatim_raw K path h (Src.full x) (Src.full_errorFree x) (by rwa [Src.full_data])
+  rwa [Src.full_data] at this
 
 /-- … and every reader entry point parses it as a plain stream. -/
 theorem neutral_verbatim {Line ρ : Type} (K : CodecImpl) (F : ReadFmt Line ρ) (r : Reader)
     (path : List Char) (h : detectExt codecTable path = none) (x : Bytes)
     (hx : ∀ n s, (n, s) ∈ specSignatures → ¬ s <+: x) :
     r.run K codecTable F path x = r.plain F x := by
-  rw [every_reader_decodes]
-  rw [show autoReader K codecTable path x = some x from neutral_verbatim_raw K path h x hx []]
+  rw [every_reader_decodes, neutral_verbatim_file K path h x hx]
   rfl
 
 /-- whole trip under a neutral name, every writer × every reader (for ANY codec implementation) -/
-theorem neutral_roundtrip {Line ρ : Type} (K : CodecImpl) (F : ReadFmt Line ρ)
+theorem neutral_roundtrip {Line ρ : Type} (K Kc : CodecImpl) (F : ReadFmt Line ρ)
     (w : AnyWriter ρ) (r : Reader) (path : List Char) (h : detectExt codecTable path = none)
     (rs : List ρ) (hx : ∀ n s, (n, s) ∈ specSignatures → ¬ s <+: w.plainOf rs) :
-    (w.run K codecTable path rs).bind (r.run K codecTable F path) = r.plain F (w.plainOf rs) := by
-  rw [neutral_stored_verbatim K w path h, Option.bind_some]
+    (w.run K Kc codecTable path rs).bind (r.run K codecTable F path) = r.plain F (w.plainOf rs) := by
+  rw [neutral_stored_verbatim K Kc w path h, Option.bind_some]
   exact neutral_verbatim K F r path h _ hx
 
 theorem no_signature_of_first_byte (x : Bytes)
@@ -290,16 +400,20 @@ theorem no_signature_of_first_byte (x : Bytes)
 theorem text_never_misdetected {Line ρ : Type} (K : CodecImpl) (F : ReadFmt Line ρ) (r : Reader)
     (path : List Char) (h : detectExt codecTable path = none) (x : Bytes)
     (hx : ∀ b, x.head? = some b → b ∉ [0x1f, 0x28, 0x42, 0xfd]) (sched : List Nat) :
-    autoReaderSrc K codecTable path ⟨x, sched⟩ = some x ∧ r.run K codecTable F path x = r.plain F x :=
-  ⟨neutral_verbatim_raw K path h x (no_signature_of_first_byte x hx) sched,
-   neutral_verbatim K F r path h x (no_signature_of_first_byte x hx)⟩
+    autoReaderSrc K codecTable path (Src.chunked x sched) = some x ∧
+      r.run K codecTable F path x = r.plain F x := by
+  have h1 := neutral_verbatim_raw K path h (Src.chunked x sched) (Src.chunked_errorFree x sched)
+    (by rw [Src.chunked_data]; exact no_signature_of_first_byte x hx)
+  rw [Src.chunked_data] at h1
+  exact ⟨h1, neutral_verbatim K F r path h x (no_signature_of_first_byte x hx)⟩
 
 /-- pure ASCII text (every byte < 0x80) under a neutral name is taken for compressed data ONLY if it
     literally starts with the three characters "BZh" — the case the property itself excepts. -/
 theorem ascii_text_misdetected_only_if_BZh {Line ρ : Type} (K : CodecImpl) (F : ReadFmt Line ρ)
     (r : Reader) (path : List Char) (h : detectExt codecTable path = none) (x : Bytes)
     (hascii : ∀ b ∈ x, b < 128) (hbzh : ¬ [0x42, 0x5a, 0x68] <+: x) (sched : List Nat) :
-    autoReaderSrc K codecTable path ⟨x, sched⟩ = some x ∧ r.run K codecTable F path x = r.plain F x := by
+    autoReaderSrc K codecTable path (Src.chunked x sched) = some x ∧
+      r.run K codecTable F path x = r.plain F x := by
   have hx : ∀ n s, (n, s) ∈ specSignatures → ¬ s <+: x := by
     intro n s hs hp
     simp only [specSignatures, List.mem_cons, Prod.mk.injEq, List.not_mem_nil, or_false] at hs
@@ -308,46 +422,53 @@ theorem ascii_text_misdetected_only_if_BZh {Line ρ : Type} (K : CodecImpl) (F :
     · exact absurd (hascii 0xb5 (hp.subset (by simp))) (by decide)
     · exact hbzh hp
     · exact absurd (hascii 0xfd (hp.subset (by simp))) (by decide)
-  exact ⟨neutral_verbatim_raw K path h x hx sched, neutral_verbatim K F r path h x hx⟩
+  have h1 := neutral_verbatim_raw K path h (Src.chunked x sched) (Src.chunked_errorFree x sched)
+    (by rw [Src.chunked_data]; exact hx)
+  rw [Src.chunked_data] at h1
+  exact ⟨h1, neutral_verbatim K F r path h x hx⟩
 
-/-- **neutral_signature**: genuinely compressed content under a neutral name is recognised by its
-    signature and decoded — by `auto_detect_reader` on ANY source (whatever its read schedule: this is
-    what the short-first-read `fix:` commit repaired) … -/
-theorem neutral_signature_raw (K : CodecImpl) (hK : Lawful K) (path : List Char)
-    (h : detectExt codecTable path = none) (n : String) (s : Bytes) (hs : (n, s) ∈ specSignatures)
-    (x : Bytes) (sched : List Nat) :
-    autoReaderSrc K codecTable path ⟨K.compress n x, sched⟩ = some x := by
+/-- **neutral_signature**: genuinely compressed content (of ANY lawful encoder `E` of the format: the
+    registry's, the cloud writer's, another program's) under a neutral name is recognised by its signature and
+    decoded — by `auto_detect_reader` on ANY source without `error` faults (whatever its read schedule and
+    `Interrupted` faults: this is what the short-first-read `fix:` commit repaired) … -/
+theorem neutral_signature_raw (E K : CodecImpl) (hK : Lawful E K) (path : List Char)
+    (h : detectExt codecTable path = none) (n : String) (sg : Bytes) (hs : (n, sg) ∈ specSignatures)
+    (x : Bytes) (s : Src) (hsf : s.ErrorFree) (hd : s.data = E.compress n x) :
+    autoReaderSrc K codecTable path s = some x := by
   obtain ⟨c, hc, hn, hm⟩ := table_of_mem_spec table_magic_is_format_signature hs
   obtain ⟨m', hm', hpos, _⟩ := magicSizesOK_spec table_magic_sizes hc
   rw [hm] at hm'; cases hm'
-  have hd : detectMagic codecTable ((K.compress n x).take (headLen codecTable)) = some c :=
-    detectMagic_take_eq_some table_magic_prefix_free hc hm hpos (magic_le_headLen hc hm) (hK.signed _ _ hs x)
-  rw [autoReaderSrc_eq_spec K table_head_len]
-  simp only [autoReaderSpec, readerCodecSpec, h, hd, hn]
+  have hd' : detectMagic codecTable ((E.compress n x).take (peekLen codecTable)) = some c := by
+    rw [headLenOK_peekLen table_head_len]
+    exact detectMagic_take_eq_some table_magic_prefix_free hc hm hpos (magic_le_headLen hc hm)
+      (hK.signed _ _ hs x)
+  rw [autoReaderSrc_eq_spec K (headLenOK_pos table_head_len) path s hsf, hd]
+  simp only [autoReaderSpec, readerCodecSpec, h, hd', hn]
   exact hK.roundtrip _ _ hs x
 
 /-- … and through every reader entry point. -/
-theorem neutral_signature {Line ρ : Type} (K : CodecImpl) (hK : Lawful K) (F : ReadFmt Line ρ)
+theorem neutral_signature {Line ρ : Type} (E K : CodecImpl) (hK : Lawful E K) (F : ReadFmt Line ρ)
     (r : Reader) (path : List Char) (h : detectExt codecTable path = none) (n : String) (s : Bytes)
     (hs : (n, s) ∈ specSignatures) (x : Bytes) :
-    r.run K codecTable F path (K.compress n x) = r.plain F x := by
+    r.run K codecTable F path (E.compress n x) = r.plain F x := by
   rw [every_reader_decodes]
-  rw [show autoReader K codecTable path (K.compress n x) = some x from
-    neutral_signature_raw K hK path h n s hs x []]
+  have := neutral_signature_raw E K hK path h n s hs x (Src.full (E.compress n x)) (Src.full_errorFree _)
+    (Src.full_data _)
+  rw [show autoReader K codecTable path (E.compress n x) = some x from this]
   rfl
 
 /-- detection by content is exact: under a neutral name the reader decodes with codec `c` iff the
-    content starts with `c`'s true signature — for every read schedule of the source. -/
-theorem neutral_reader_codec_iff (path : List Char) (h : detectExt codecTable path = none) (x : Bytes)
-    (sched : List Nat) (c : CodecEntry) (hc : c ∈ codecTable) :
-    readerCodecSrc codecTable path ⟨x, sched⟩ = some c ↔
-      ∃ s, (c.name, s) ∈ specSignatures ∧ c.magic = some s ∧ s <+: x := by
-  obtain ⟨s, hm, hmem⟩ := spec_of_mem_table table_magic_is_format_signature hc
-  rw [readerCodecSrc_eq_spec table_head_len]
-  simp only [readerCodecSpec, h]
+    content starts with `c`'s true signature — for every source without `error` faults. -/
+theorem neutral_reader_codec_iff (path : List Char) (h : detectExt codecTable path = none) (s : Src)
+    (hsf : s.ErrorFree) (c : CodecEntry) (hc : c ∈ codecTable) :
+    readerCodecSrc codecTable path s = some (some c) ↔
+      ∃ sg, (c.name, sg) ∈ specSignatures ∧ c.magic = some sg ∧ sg <+: s.data := by
+  obtain ⟨sg, hm, hmem⟩ := spec_of_mem_table table_magic_is_format_signature hc
+  rw [readerCodecSrc_eq_spec (headLenOK_pos table_head_len) path s hsf]
+  simp only [readerCodecSpec, h, Option.some.injEq]
   constructor
   · intro hd
-    refine ⟨s, hmem, hm, ?_⟩
+    refine ⟨sg, hmem, hm, ?_⟩
     unfold detectMagic at hd
     split at hd
     · cases hd
@@ -357,6 +478,7 @@ theorem neutral_reader_codec_iff (path : List Char) (h : detectExt codecTable pa
   · rintro ⟨s', _, hm', hp⟩
     obtain ⟨m', hm'', hpos, _⟩ := magicSizesOK_spec table_magic_sizes hc
     rw [hm'] at hm''; cases hm''
+    rw [headLenOK_peekLen table_head_len]
     exact detectMagic_take_eq_some table_magic_prefix_free hc hm' hpos (magic_le_headLen hc hm') hp
 
 /-! ## glob reads: every matched file is decoded under its OWN name -/
@@ -365,11 +487,11 @@ theorem neutral_reader_codec_iff (path : List Char) (h : detectExt codecTable pa
     names (different codecs, case variants, neutral names side by side) and read through the glob branch
     of `read_jsonl` / `read_csv` / `read_cloud_jsonl_glob` yields the records of all files, in the
     order the files are listed — provided the format layer round-trips on plain bytes (C09). -/
-theorem glob_roundtrip {Line ρ : Type} (K : CodecImpl) (hK : Lawful K) (F : ReadFmt Line ρ)
-    (items : List (List Char × AnyWriter ρ × List ρ))
+theorem glob_roundtrip {Line ρ : Type} (K Kc : CodecImpl) (hK : Lawful K K) (hC : Lawful Kc K)
+    (F : ReadFmt Line ρ) (items : List (List Char × AnyWriter ρ × List ρ))
     (hok : ∀ i ∈ items, NameOK i.1 (i.2.1.plainOf i.2.2))
     (hfmt : ∀ i ∈ items, (F.lines (i.2.1.plainOf i.2.2)).bind (IB.Io.readAll F.blank F.de) = some i.2.2) :
-    ∃ files, items.mapM (fun i => (i.2.1.run K codecTable i.1 i.2.2).map fun b => (i.1, b)) = some files ∧
+    ∃ files, items.mapM (fun i => (i.2.1.run K Kc codecTable i.1 i.2.2).map fun b => (i.1, b)) = some files ∧
       readGlob K codecTable F files = some (items.map (·.2.2)).flatten := by
   induction items with
   | nil => exact ⟨[], rfl, rfl⟩
@@ -378,13 +500,13 @@ theorem glob_roundtrip {Line ρ : Type} (K : CodecImpl) (hK : Lawful K) (F : Rea
       (fun j hj => hfmt j (List.mem_cons_of_mem _ hj))
     have hi := hok i List.mem_cons_self
     have hfi := hfmt i List.mem_cons_self
-    refine ⟨(i.1, autoWriter K codecTable i.1 (i.2.1.plainOf i.2.2)) :: files, ?_, ?_⟩
+    refine ⟨(i.1, autoWriter (i.2.1.enc K Kc) codecTable i.1 (i.2.1.plainOf i.2.2)) :: files, ?_, ?_⟩
     · rw [List.mapM_cons, hf, every_writer_wraps]
       rfl
-    · have hone : readVec K codecTable F i.1 (autoWriter K codecTable i.1 (i.2.1.plainOf i.2.2)) = some i.2.2 := by
+    · have hone : readVec K codecTable F i.1
+          (autoWriter (i.2.1.enc K Kc) codecTable i.1 (i.2.1.plainOf i.2.2)) = some i.2.2 := by
         unfold readVec
-        rw [show autoReader K codecTable i.1 (autoWriter K codecTable i.1 (i.2.1.plainOf i.2.2)) =
-          some (i.2.1.plainOf i.2.2) from transparent K hK i.1 _ hi []]
+        rw [transparent_file _ K (enc_lawful K Kc hK hC i.2.1) i.1 _ hi]
         exact hfi
       unfold readGlob at hr ⊢
       rw [List.mapM_cons, hone]
@@ -395,10 +517,105 @@ theorem glob_roundtrip {Line ρ : Type} (K : CodecImpl) (hK : Lawful K) (F : Rea
         simp only [Option.map_some, Option.some.injEq] at hr
         simp [hr]
 
+/-! ## the registry as state: user codecs registered with `register_codec`
+
+`regTable extra` is what `get_registry()` returns in a process that registered the codecs `extra` (in this
+order, at any time, interleaved with any number of detections): `registry_builtins_first`. The theorems below
+hold for EVERY `extra` — a user codec can add extensions and signatures, it can never change what happens
+to a path that carries a built-in extension or to a genuine built-in stream. -/
+
+/-- the table every detection sees after ANY sequence of registry operations in a fresh process: the
+    built-in codecs first, then the registered ones in registration order (in particular a process whose
+    FIRST registry operation is `register_codec` keeps all built-ins) -/
+theorem registry_builtins_first (ops : List RegOp) :
+    ((Registry.run codecTable none ops).get codecTable).1 = codecTable ++ registeredBy ops :=
+  registry_run_get codecTable ops none
+
+/-- operations never remove or reorder what is already there: once a detection saw `t`, every later one
+    sees `t ++ (what was registered since)` -/
+theorem registry_only_grows (t : List CodecEntry) (ops : List RegOp) :
+    ((Registry.run codecTable (some t) ops).get codecTable).1 = t ++ registeredBy ops :=
+  registry_run_get codecTable ops (some t)
+
+/-- the extension decision for a path carrying a built-in extension is unchanged by registered codecs -/
+theorem registered_keeps_extension_decision (extra : List CodecEntry) (path : List Char) (c : CodecEntry)
+    (h : detectExt codecTable path = some c) : detectExt (codecTable ++ extra) path = some c :=
+  detectExt_append_left h
+
+/-- a name is neutral in the extended registry iff it carries neither a built-in nor a registered extension -/
+theorem registered_neutral_iff (extra : List CodecEntry) (path : List Char) :
+    detectExt (codecTable ++ extra) path = none ↔
+      detectExt codecTable path = none ∧ detectExt extra path = none :=
+  detectExt_append_none
+
+theorem headLen_registered_pos (extra : List CodecEntry) : 0 < headLen (codecTable ++ extra) := by
+  rw [headLen_append]
+  have := headLenOK_pos table_head_len
+  omega
+
+/-- **built-in round trip with user codecs registered**: for EVERY list of registered codecs, every writer
+    entry point (the cloud writer included: its chain is the built-in table), every reader entry point and
+    every path carrying a BUILT-IN extension, what is written reads back as the plain serialisation. -/
+theorem registered_ext_roundtrip {Line ρ : Type} (extra : List CodecEntry) (K Kc : CodecImpl)
+    (hK : Lawful K K) (hC : Lawful Kc K) (F : ReadFmt Line ρ) (w : AnyWriter ρ) (r : Reader)
+    (path : List Char) (c : CodecEntry) (h : detectExt codecTable path = some c) (rs : List ρ) :
+    (w.run K Kc (codecTable ++ extra) path rs).bind (r.run K (codecTable ++ extra) F path) =
+      r.plain F (w.plainOf rs) := by
+  obtain ⟨s, _, hs⟩ := spec_of_mem_table table_magic_is_format_signature (detectExt_mem h)
+  have h' := registered_keeps_extension_decision extra path c h
+  have hread : ∀ E : CodecImpl, Lawful E K →
+      autoReader K (codecTable ++ extra) path (E.compress c.name (w.plainOf rs)) = some (w.plainOf rs) := by
+    intro E hE
+    simp only [autoReader, autoReaderSrc, h', drainItems_errorFree _ (Src.full_errorFree _)]
+    have := Src.full_data (E.compress c.name (w.plainOf rs))
+    unfold Src.data at this
+    rw [this]
+    exact hE.roundtrip _ _ hs _
+  rw [every_writer_wraps_any_registry, Option.bind_some, reader_decodes]
+  cases hcl : w.isCloud with
+  | true => simp only [if_true, autoWriter, h, hread Kc hC, Option.bind_some]
+  | false => simp only [Bool.false_eq_true, if_false, autoWriter, h', hread K hK, Option.bind_some]
+
+/-- **genuine built-in streams are still recognised**: under a name that is neutral in the extended
+    registry, a genuine stream of a built-in codec is decoded, from any source without `error` faults —
+    the built-in signatures are tested FIRST, whatever magic bytes user codecs declare. -/
+theorem registered_neutral_signature (extra : List CodecEntry) (E K : CodecImpl) (hK : Lawful E K)
+    (path : List Char) (h : detectExt (codecTable ++ extra) path = none) (n : String) (sg : Bytes)
+    (hs : (n, sg) ∈ specSignatures) (x : Bytes) (s : Src) (hsf : s.ErrorFree)
+    (hd : s.data = E.compress n x) :
+    autoReaderSrc K (codecTable ++ extra) path s = some x := by
+  obtain ⟨c, hc, hn, hm⟩ := table_of_mem_spec table_magic_is_format_signature hs
+  obtain ⟨m', hm', hpos, hcap⟩ := magicSizesOK_spec table_magic_sizes hc
+  rw [hm] at hm'; cases hm'
+  have hle : sg.length ≤ peekLen (codecTable ++ extra) := by
+    unfold peekLen
+    rw [headLen_append]
+    have := magic_le_headLen hc hm
+    omega
+  have hd' : detectMagic (codecTable ++ extra) ((E.compress n x).take (peekLen (codecTable ++ extra))) = some c :=
+    detectMagic_append_left
+      (detectMagic_take_eq_some table_magic_prefix_free hc hm hpos hle (hK.signed _ _ hs x))
+  rw [autoReaderSrc_eq_spec K (headLen_registered_pos extra) path s hsf, hd]
+  simp only [autoReaderSpec, readerCodecSpec, h, hd', hn]
+  exact hK.roundtrip _ _ hs x
+
+/-- **plain content stays verbatim**: under a name that is neutral in the extended registry, content that
+    starts with no built-in signature and with no registered codec's magic bytes is returned verbatim. -/
+theorem registered_neutral_verbatim (extra : List CodecEntry) (K : CodecImpl) (path : List Char)
+    (h : detectExt (codecTable ++ extra) path = none) (s : Src) (hsf : s.ErrorFree)
+    (hx : ∀ n sg, (n, sg) ∈ specSignatures → ¬ sg <+: s.data)
+    (hu : ∀ c ∈ extra, ∀ m, c.magic = some m → ¬ m <+: s.data) :
+    autoReaderSrc K (codecTable ++ extra) path s = some s.data := by
+  rw [autoReaderSrc_eq_spec K (headLen_registered_pos extra) path s hsf]
+  have h1 := detectMagic_none_of_no_signature s.data (peekLen (codecTable ++ extra)) hx
+  have h2 : detectMagic extra (s.data.take (peekLen (codecTable ++ extra))) = none :=
+    detectMagic_take_eq_none _ hu
+  simp only [autoReaderSpec, readerCodecSpec, h, detectMagic_append_none h1, h2]
+
 /-! ## non-vacuity -/
 
 /-- the assumptions on the codecs are satisfiable: the driver's codec family meets them -/
-theorem toy_lawful : Lawful toy := by
+theorem toy_lawful : Lawful toy toy := by
   constructor
   · intro n s _ x
     simp only [toy, List.isPrefixOf_iff_prefix, List.prefix_append, if_true, List.drop_left]
@@ -412,7 +629,7 @@ example : detectExt codecTable "Data/x.jsonl.Gz".toList = some ⟨"gzip", [".gz"
   decide
 /-- … the conclusion evaluated on it (parallel JSONL writer with 2 shards, streaming reader with 1 line per
     shard, parallel collect; records = lines `[1]`, `[2]`, `[3]`) … -/
-example : ((AnyWriter.jsonl (.par (some 2) 16) id).run toy codecTable "x.jsonl.GZ".toList
+example : ((AnyWriter.jsonl (.par (some 2) 16) id).run toy toy codecTable "x.jsonl.GZ".toList
       [[91, 49, 93], [91, 50, 93], [91, 51, 93]]).bind
     ((Reader.streaming 1 true).run toy codecTable lineJsonl "x.jsonl.GZ".toList) =
       some [[91, 49, 93], [91, 50, 93], [91, 51, 93]] := by decide
@@ -432,8 +649,16 @@ example : detectExt codecTable "plain.csv".toList = none ∧
     (rw [← List.isPrefixOf_iff_prefix]; decide)
 /-- a case variant in the sense of `ext_case_insensitive` -/
 example : ".bZiP2".toList ∈ caseVariants ".bzip2".toList := by decide
-/-- `neutral_signature_raw` on a source that delivers its first three bytes one by one -/
-example : autoReaderSrc toy codecTable "x.dat".toList ⟨toy.compress "xz" [1, 2, 3], [0, 0, 0]⟩ = some [1, 2, 3] := by
+/-- `neutral_signature_raw` on a source that delivers its first three bytes one by one, with an
+    `Interrupted` fault after the first byte (`ErrorFree`, so the hypothesis is met) -/
+example : errorFree (.byte 0xfd :: .fault .interrupted :: ((toy.compress "xz" [1, 2, 3]).drop 1).map .byte) = true ∧
+    autoReaderSrc toy codecTable "x.dat".toList
+      ⟨.byte 0xfd :: .fault .interrupted :: ((toy.compress "xz" [1, 2, 3]).drop 1).map .byte, [0, 0, 0]⟩ =
+        some [1, 2, 3] := by
+  decide
+/-- `source_error_in_head_is_reported` on a gzip stream whose source fails once after the first byte -/
+example : autoReaderSrc toy codecTable "x.dat".toList
+      ⟨.byte 0x1f :: .fault .error :: ((toy.compress "gzip" [1, 2, 3]).drop 1).map .byte, []⟩ = none := by
   decide
 /-- `glob_roundtrip` evaluated: a gzip file, a plain file and a zstd file side by side -/
 example : readGlob toy codecTable lineJsonl
@@ -441,6 +666,57 @@ example : readGlob toy codecTable lineJsonl
      ("d/b.jsonl".toList, writeJsonlVec toy codecTable id "d/b.jsonl".toList [[50]]),
      ("d/c.JSONL.ZST".toList, writeJsonlVec toy codecTable id "d/c.JSONL.ZST".toList [[51]])] =
     some [[49], [50], [51]] := by decide
+
+/-- the user codecs the harness's registry child registers: one with magic bytes, one without, one whose
+    extension `z` is a suffix of `.gz` / `.xz` and whose magic `1f` is a prefix of gzip's (it would shadow
+    built-ins if it came first: registry ORDER is what `registered_*` rest on) -/
+def userCodecs : List CodecEntry :=
+  [⟨"noop", [".noop"], some [0xff, 0xfe]⟩, ⟨"rot", [".rot", ".myext"], none⟩, ⟨"zed", ["z"], some [0x1f]⟩]
+
+/-- `registry_builtins_first` evaluated for a process whose FIRST registry operation is `register_codec` -/
+example : (((Registry.run codecTable none
+      [.register userCodecs[0], .get, .register userCodecs[1], .register userCodecs[2]]).get codecTable).1).map (·.name) =
+    ["gzip", "zstd", "bzip2", "xz", "noop", "rot", "zed"] := by decide
+/-- `registered_keeps_extension_decision` / `registered_neutral_signature` evaluated where order matters:
+    `x.gz` stays gzip although `zed`'s extension `z` is a suffix of it, a gzip stream under a neutral name stays
+    gzip although `zed`'s magic `1f` is a prefix of gzip's -/
+example : (detectExt (codecTable ++ userCodecs) "x.gz".toList).map (·.name) = some "gzip" ∧
+    (readerCodec (codecTable ++ userCodecs) "x.dat".toList
+      ((toyIn (codecTable ++ userCodecs)).compress "gzip" [1, 2, 3])).map (·.name) = some "gzip" ∧
+    (readerCodec (userCodecs ++ codecTable) "x.dat".toList
+      ((toyIn (codecTable ++ userCodecs)).compress "gzip" [1, 2, 3])).map (·.name) = some "zed" := by decide
+/-- `registered_ext_roundtrip` evaluated (local parallel writer, user codecs registered) … -/
+example : ((AnyWriter.jsonl (.par (some 2) 16) id).run (toyIn (codecTable ++ userCodecs))
+      (toyIn (codecTable ++ userCodecs)) (codecTable ++ userCodecs) "x.jsonl.zst".toList [[49], [50]]).bind
+    (Reader.vec.run (toyIn (codecTable ++ userCodecs)) (codecTable ++ userCodecs) lineJsonl "x.jsonl.zst".toList) =
+      some [[49], [50]] := by decide
+/-- … and a user codec's own extension round-trips through the LOCAL entry points -/
+example : ((AnyWriter.jsonl .vec id).run (toyIn (codecTable ++ userCodecs))
+      (toyIn (codecTable ++ userCodecs)) (codecTable ++ userCodecs) "x.jsonl.noop".toList [[49], [50]]).bind
+    (Reader.vec.run (toyIn (codecTable ++ userCodecs)) (codecTable ++ userCodecs) lineJsonl "x.jsonl.noop".toList) =
+      some [[49], [50]] := by decide
+
+/-- the hypothesis `hu` of `registered_neutral_verbatim` is necessary: a registered codec whose magic is the
+    byte `{` takes every JSON object under a neutral name for its own format (the property's exception
+    "unless it really begins with a codec's format signature", applied to a user codec) -/
+theorem user_magic_shadows_text :
+    (readerCodec (codecTable ++ [⟨"brace", [".brace"], some [0x7b]⟩]) "x.jsonl".toList
+      [0x7b, 0x22, 0x61, 0x22, 0x3a, 0x31, 0x7d, 0x0a]).map (·.name) = some "brace" ∧
+    (readerCodec codecTable "x.jsonl".toList [0x7b, 0x22, 0x61, 0x22, 0x3a, 0x31, 0x7d, 0x0a]) = none := by
+  decide
+
+/-- NOT covered by the property (it speaks of the built-in codecs), recorded because the model shows it:
+    `write_cloud_jsonl_vec` never consults the registry, `read_cloud_jsonl_vec` does — an object written under
+    a REGISTERED codec's extension is stored plain and then fed to that codec's decoder. The local writers
+    round-trip (example above). -/
+theorem cloud_writer_ignores_registered_codecs :
+    (AnyWriter.jsonl .cloud id).run (toyIn (codecTable ++ userCodecs)) (toyIn (codecTable ++ userCodecs))
+      (codecTable ++ userCodecs) "k.jsonl.noop".toList [[49]] = some [49, 10] ∧
+    ((AnyWriter.jsonl .cloud id).run (toyIn (codecTable ++ userCodecs)) (toyIn (codecTable ++ userCodecs))
+      (codecTable ++ userCodecs) "k.jsonl.noop".toList [[49]]).bind
+      (Reader.cloud.run (toyIn (codecTable ++ userCodecs)) (codecTable ++ userCodecs) lineJsonl
+        "k.jsonl.noop".toList) = none := by
+  decide
 
 /-! ## the pinned commit: negation witnesses (what the check guards against) -/
 
@@ -459,10 +735,10 @@ theorem legacy_bz_text_misdetected :
 /-- at `a2588b9` the free parallel writers (and `PCollection::write_jsonl_par`) stored the plain
     serialisation under ANY name, for all data and shard counts: `every_writer_wraps` is false for the
     pinned definitions … -/
-theorem legacy_par_writers_store_plain {ρ : Type} (K : CodecImpl) (tbl : List CodecEntry) (ser : ρ → Bytes)
+theorem legacy_par_writers_store_plain {ρ : Type} (K Kc : CodecImpl) (tbl : List CodecEntry) (ser : ρ → Bytes)
     (hdr : Bool) (header : Bytes) (path : List Char) (rs : List ρ) (sh : Option Nat) (a : Nat) :
-    Legacy.JWriter.run K tbl ser (.par sh a) path rs = some (jsonlPlain ser rs) ∧
-    Legacy.JWriter.run K tbl ser (.pcPar sh a) path rs = some (jsonlPlain ser rs) ∧
+    Legacy.JWriter.run K Kc tbl ser (.par sh a) path rs = some (jsonlPlain ser rs) ∧
+    Legacy.JWriter.run K Kc tbl ser (.pcPar sh a) path rs = some (jsonlPlain ser rs) ∧
     Legacy.CWriter.run K tbl hdr header ser (.par sh a) path rs = some (csvPlain hdr header ser rs) := by
   have hj : Legacy.writeJsonlPar ser rs sh a = some (jsonlPlain ser rs) := by
     have h := writeJsonlPar_eq ⟨fun _ x => x, fun _ x => some x⟩ [] ser path rs sh a
@@ -488,11 +764,11 @@ theorem legacy_par_writers_store_plain {ρ : Type} (K : CodecImpl) (tbl : List C
 /-- … so `x.jsonl.gz` written by `write_jsonl_par` did not start with the gzip signature and could not
     be read back (negation of `ext_stored_compressed` / `ext_roundtrip`); the current model round-trips. -/
 theorem legacy_par_writer_unreadable :
-    Legacy.JWriter.run toy codecTable id (.par (some 2) 16) "x.jsonl.gz".toList [[91, 49, 93], [91, 50, 93]] =
+    Legacy.JWriter.run toy toy codecTable id (.par (some 2) 16) "x.jsonl.gz".toList [[91, 49, 93], [91, 50, 93]] =
       some [91, 49, 93, 10, 91, 50, 93, 10] ∧
-    (Legacy.JWriter.run toy codecTable id (.par (some 2) 16) "x.jsonl.gz".toList [[91, 49, 93], [91, 50, 93]]).bind
+    (Legacy.JWriter.run toy toy codecTable id (.par (some 2) 16) "x.jsonl.gz".toList [[91, 49, 93], [91, 50, 93]]).bind
       (Reader.vec.run toy codecTable lineJsonl "x.jsonl.gz".toList) = none ∧
-    (JWriter.run toy codecTable id (.par (some 2) 16) "x.jsonl.gz".toList [[91, 49, 93], [91, 50, 93]]).bind
+    (JWriter.run toy toy codecTable id (.par (some 2) 16) "x.jsonl.gz".toList [[91, 49, 93], [91, 50, 93]]).bind
       (Reader.vec.run toy codecTable lineJsonl "x.jsonl.gz".toList) = some [[91, 49, 93], [91, 50, 93]] := by
   decide
 
@@ -501,9 +777,9 @@ theorem legacy_par_writer_unreadable :
 theorem legacy_cloud_dotfile_key :
     Legacy.cloudWriterCodec "dir/.gz".toList = none ∧
     (detectExt codecTable "dir/.gz".toList).map (·.name) = some "gzip" ∧
-    (Legacy.JWriter.run toy codecTable id .cloud "dir/.gz".toList [[91, 49, 93]]).bind
+    (Legacy.JWriter.run toy toy codecTable id .cloud "dir/.gz".toList [[91, 49, 93]]).bind
       (Reader.cloud.run toy codecTable lineJsonl "dir/.gz".toList) = none ∧
-    (JWriter.run toy codecTable id .cloud "dir/.gz".toList [[91, 49, 93]]).bind
+    (JWriter.run toy toy codecTable id .cloud "dir/.gz".toList [[91, 49, 93]]).bind
       (Reader.cloud.run toy codecTable lineJsonl "dir/.gz".toList) = some [[91, 49, 93]] := by
   decide
 
@@ -512,11 +788,30 @@ theorem legacy_cloud_dotfile_key :
     (negation of `neutral_signature_raw` / `detection_independent_of_read_schedule`); on a `File` the
     pinned code did detect it, and the current model detects it for every schedule. -/
 theorem legacy_short_first_read_undetected :
-    Legacy.readerCodecSrc codecTable "x.dat".toList ⟨toy.compress "gzip" [1, 2, 3], [0]⟩ = none ∧
-    Legacy.autoReaderSrc toy codecTable "x.dat".toList ⟨toy.compress "gzip" [1, 2, 3], [0]⟩ =
+    Legacy.readerCodecSrc codecTable "x.dat".toList (Src.chunked (toy.compress "gzip" [1, 2, 3]) [0]) = none ∧
+    Legacy.autoReaderSrc toy codecTable "x.dat".toList (Src.chunked (toy.compress "gzip" [1, 2, 3]) [0]) =
       some (toy.compress "gzip" [1, 2, 3]) ∧
-    Legacy.autoReaderSrc toy codecTable "x.dat".toList ⟨toy.compress "gzip" [1, 2, 3], []⟩ = some [1, 2, 3] ∧
-    autoReaderSrc toy codecTable "x.dat".toList ⟨toy.compress "gzip" [1, 2, 3], [0]⟩ = some [1, 2, 3] := by
+    Legacy.autoReaderSrc toy codecTable "x.dat".toList (Src.chunked (toy.compress "gzip" [1, 2, 3]) []) =
+      some [1, 2, 3] ∧
+    autoReaderSrc toy codecTable "x.dat".toList (Src.chunked (toy.compress "gzip" [1, 2, 3]) [0]) =
+      some [1, 2, 3] := by
+  decide
+
+/-- `read_head` of `71bba51` stopped at a source error and dropped it: a genuine gzip stream under a neutral
+    name whose source fails ONCE after the first byte (a time-out on a socket, say) and then delivers the
+    rest was handed on UNDECODED, with no error reported — neither "recognised by its signature" nor
+    `none` (negation of `source_faults_never_silent`); the current model reports the error, and decodes the
+    same stream when the fault is an `Interrupted`. -/
+theorem legacy_source_error_swallowed :
+    Legacy.autoReaderSrcSwallow toy codecTable "x.dat".toList
+      ⟨.byte 0x1f :: .fault .error :: ((toy.compress "gzip" [1, 2, 3]).drop 1).map .byte, []⟩ =
+        some (toy.compress "gzip" [1, 2, 3]) ∧
+    autoReader toy codecTable "x.dat".toList (toy.compress "gzip" [1, 2, 3]) = some [1, 2, 3] ∧
+    autoReaderSrc toy codecTable "x.dat".toList
+      ⟨.byte 0x1f :: .fault .error :: ((toy.compress "gzip" [1, 2, 3]).drop 1).map .byte, []⟩ = none ∧
+    autoReaderSrc toy codecTable "x.dat".toList
+      ⟨.byte 0x1f :: .fault .interrupted :: ((toy.compress "gzip" [1, 2, 3]).drop 1).map .byte, []⟩ =
+        some [1, 2, 3] := by
   decide
 
 end IB.Compression
